@@ -25,7 +25,7 @@
      - for the pseudo-ID version, self_valid : name -> bool (JSONVerifierSelf's answer).
    Redaction (the message of every request, and the error when it fails) is C05's model of
    redactevent.go: Event/Redact.v, redact ver j. *)
-From Verif Require Import Lib.Bytes Json.Ast Gen.GenVersions Event.Redact.
+From Verif Require Import Lib.Bytes Json.Ast Gen.GenVersions Event.Redact Ident.Ids.
 Open Scope N_scope.
 
 (* ---------- room-version table (generated) ---------- *)
@@ -278,6 +278,23 @@ Definition verify_event (ver : bytes) (lk : lookup) (j : json) (verifier : reque
   | None => false
   end.
 
+(* an event parsed from RECEIVED bytes (NewEventFromUntrustedJSON): the struct the accessors read
+   is decoded from the bytes as received (jf), while JSON() - what is redacted and handed to the
+   verifier, hashed and stored - is their canonical re-sort (jb).  For events without repeated or
+   case-variant members both readings coincide (verify_requests). *)
+Definition verify_requests_wire (ver : bytes) (lk : lookup) (jf jb : json) : option (list request) :=
+  match read_event jf with
+  | None => None
+  | Some e =>
+      match required_servers ver lk e with
+      | Some l => match redact ver jb with
+                  | Some msg => Some (requests_of ver e msg l)
+                  | None => None
+                  end
+      | None => None
+      end
+  end.
+
 (* VerifyAllEventSignatures: one verdict per event, same order *)
 Definition verify_all (ver : bytes) (evs : list (lookup * json)) (verifier : request -> bool) (verr : bool) : list bool :=
   map (fun le => verify_event ver (fst le) (snd le) verifier verr) evs.
@@ -297,10 +314,10 @@ Definition needed_set (l : list bytes) : list bytes := fold_right insert_sorted 
 (* ---------- pseudo-ID version (org.matrix.msc4014) ---------- *)
 (* getMXIDMapping decodes the whole content as MemberContent; the model covers contents whose
    members other than membership / mxid_mapping / join_authorised_via_users_server have the
-   declared types (domain restriction stated in props/C06.json); mapping_servers = keys of
-   mxid_mapping.signatures in the decoded value (a Go map: the set of keys). *)
-Inductive mapping_result := MErr | MServers (l : list bytes).
+   declared types (domain restriction stated in props/C06.json). *)
+Inductive mapping_result := MErr | MMapping (user_room_key user_id : bytes).
 
+(* the signatures member must still decode (map of server -> map of key ID -> base64) *)
 Definition mapping_signers (sigs : option json) : option (list bytes) :=
   match sigs with
   | None => Some []
@@ -318,12 +335,24 @@ Definition mxid_mapping (e : event) : mapping_result :=
       | Some (JObj mm) =>
           match go_string (bs "user_room_key") mm, go_string (bs "user_id") mm,
                 mapping_signers (go_raw (bs "signatures") mm) with
-          | Some _, Some _, Some l => MServers l
+          | Some k, Some u, Some _ => MMapping k u
           | _, _, _ => MErr
           end
       | _ => MErr            (* absent or null: missing mxid_mapping; other types: decode error *)
       end
   | _ => MErr
+  end.
+
+(* the one server whose signature over the mapping is demanded (repair F60): the mapping must be
+   for the room key that sent the event, and spec.NewUserID(user_id, true) - C17's model
+   Ident.Ids.user_id_parse - gives the server; None = error before the verifier is consulted *)
+Definition mapping_server (e : event) : option bytes :=
+  match mxid_mapping e with
+  | MErr => None
+  | MMapping k u =>
+      if bytes_eqb k (e_sender e)
+      then match user_id_parse true u with Some (_, d) => Some d | None => None end
+      else None
   end.
 
 Definition needed_member_pseudoid (ver : bytes) (e : event) : option (list bytes) :=
@@ -359,9 +388,9 @@ Definition pseudoid_trace (ver : bytes) (j : json) (valid self_valid : bytes -> 
     | Some ms =>
         let pre :=
           if bytes_eqb ms k_join then
-            match mxid_mapping e with
-            | MErr => None
-            | MServers l => Some (Some l)
+            match mapping_server e with
+            | None => None
+            | Some d => Some (Some [d])
             end
           else Some None in
         match pre with
